@@ -18,7 +18,11 @@ TCS = [
     {"apid": 0x7FF, "seq": 0x3FFF, "service": 3, "subservice": 5, "data": ""},
     {"apid": 0x22, "seq": 17, "service": 200, "subservice": 9, "data": "ffee"},
     {"apid": 0x23, "seq": 17, "service": 17, "subservice": 1, "data": ""},
+    # 5 and 6 differ from 0 in nothing but the CCSDS version bits / the sequence flags: different request ids (the id is all 32 bits)
+    {"apid": 0x22, "seq": 17, "service": 17, "subservice": 1, "data": "", "ver": 5},
+    {"apid": 0x22, "seq": 17, "service": 17, "subservice": 1, "data": "", "flags": 1},
 ]
+REGISTRABLE = (0, 1, 2, 3, 5, 6)
 
 
 def _m():
@@ -82,11 +86,22 @@ class State:
         s1, PFE, PusVerificator, RequestId, PusTc = _m()
         self.s1, self.PFE, self.RequestId = s1, PFE, RequestId
         self.real = PusVerificator()
-        self.tcs = [PusTc(service=t["service"], subservice=t["subservice"], apid=t["apid"], seq_count=t["seq"], app_data=bytes.fromhex(t["data"])) for t in TCS]
+        self.tcs = [self._tc(PusTc, t) for t in TCS]
         self.req = [RequestId.from_pus_tc(tc) for tc in self.tcs]
         self.key = [r.as_u32() for r in self.req]
         self.model = {}  # u32 -> status dict
         self.ever_finished = set()
+
+    @staticmethod
+    def _tc(PusTc, t):
+        data = bytes.fromhex(t["data"])
+        if "ver" not in t and "flags" not in t:
+            return PusTc(service=t["service"], subservice=t["subservice"], apid=t["apid"], seq_count=t["seq"], app_data=data)
+        from spacepackets.ccsds import spacepacket as sp
+
+        hdr = sp.SpacePacketHeader(packet_type=sp.PacketType.TC, apid=t["apid"], seq_count=t["seq"], data_len=0, sec_header_flag=True,
+                                   seq_flags=sp.SequenceFlags(t.get("flags", 3)), ccsds_version=t.get("ver", 0))
+        return PusTc.from_sp_header(hdr, service=t["service"], subservice=t["subservice"], app_data=data)
 
     def report(self, t, sub, step):
         s1 = self.s1
@@ -101,17 +116,17 @@ class TrackerMachine(HistorySpec):
 
     def init_strategy(self):
         # telecommands registered before the history starts (exercised through add_tc like any other)
-        return st.fixed_dictionaries({"registered": st.lists(st.integers(0, 3), max_size=3, unique=True)})
+        return st.fixed_dictionaries({"registered": st.lists(st.sampled_from(REGISTRABLE), max_size=3, unique=True)})
 
     def ops(self):
-        report = st.fixed_dictionaries({"t": st.sampled_from([0, 0, 1, 1, 2, 3, 4]), "sub": st.integers(1, 8), "step": st.integers(0, 255)})
+        report = st.fixed_dictionaries({"t": st.sampled_from([0, 0, 1, 1, 2, 3, 4, 5, 6]), "sub": st.integers(1, 8), "step": st.integers(0, 255)})
         return {
-            "add_tc": st.integers(0, 3),
+            "add_tc": st.sampled_from(REGISTRABLE),
             # reports are the interesting input: three identical rules give them 3/6 of the steps
             "add_tm": report,
             "add_tm_b": report,
             "add_tm_c": report,
-            "remove_entry": st.integers(0, 4),
+            "remove_entry": st.integers(0, 6),
             "remove_completed": st.just(0),
         }
 
@@ -201,8 +216,11 @@ def _cls(trace):
         out.append("step success after step failure")
     if len({a["t"] for a in reports}) >= 2:
         out.append("interleaved telecommands")
+    regs = set(trace["init"].get("registered", [])) | {a for n, a in _norm(trace) if n == "add_tc"}
+    if (5 in regs or 6 in regs) and ({0, 3} & regs or any(a["t"] in (0, 3) for a in reports)):
+        out.append("request ids differing only in version / sequence flags")
     # replay on the model alone to see which model states the history reached
-    keyof = lambda t: (TCS[t]["apid"], TCS[t]["seq"])  # noqa: E731
+    keyof = lambda t: (TCS[t]["apid"], TCS[t]["seq"], TCS[t].get("ver", 0), TCS[t].get("flags", 3))  # noqa: E731
     model = {keyof(t): new_status() for t in trace["init"].get("registered", [])}
     for n, a in _norm(trace):
         if n == "add_tc":
@@ -231,7 +249,7 @@ CLAUSES = [
         history=TrackerMachine(),
         nontrivial=_nt,
         classify=_cls,
-        required=["report for registered tc", "all verifications received", "remove_completed removes something", "remove_completed keeps something", "start/step/completion failure", "report for unknown tc", "shared request id", "remove_completed", "remove_entry", "step success after step failure", "interleaved telecommands"],
+        required=["report for registered tc", "all verifications received", "remove_completed removes something", "remove_completed keeps something", "start/step/completion failure", "report for unknown tc", "shared request id", "remove_completed", "remove_entry", "step success after step failure", "interleaved telecommands", "request ids differing only in version / sequence flags"],
         n={"quick": 400, "thorough": 3000},
     ),
 ]
@@ -240,8 +258,8 @@ PROPERTY = Property(
     id="C16",
     level="exploration",
     rule=(
-        "histories of up to 50 calls over {add_tc(t), add_tm(report(t, subservice 1..8, step id)), remove_entry(t), remove_completed_entries()} for 5 telecommands (3 distinct, one sharing a "
-        "request id, one never registered), generated by Hypothesis' rule-based state machine; oracle = reference model of the documented state machine; every return value and the complete "
+        "histories of up to 50 calls over {add_tc(t), add_tm(report(t, subservice 1..8, step id)), remove_entry(t), remove_completed_entries()} for 7 telecommands (3 distinct, one sharing a "
+        "request id, one never registered, two differing from the first only in CCSDS version / sequence flags), generated by Hypothesis' rule-based state machine; oracle = reference model of the documented state machine; every return value and the complete "
         "tracker state are compared after every call; non-trivial = history touching >= 2 telecommands with a failure or an out-of-order report"
     ),
     clauses=CLAUSES,
